@@ -445,19 +445,10 @@ void StructSyncManager::sync_struct_members_from_direct_access(
                                         DebugMsgId::GENERIC_DEBUG,
                                         "SYNC_STRUCT: Copied element[%d] = ");
                                 }
-                                // 多次元配列の場合は multidim_array_values
-                                // にも設定
-                                if (var->struct_members[member.name]
-                                        .is_multidimensional) {
-                                    var->struct_members[member.name]
-                                        .multidim_array_values[i] =
-                                        element_var->value;
-                                    if (interpreter_->debug_mode) {
-                                        debug_msg(DebugMsgId::GENERIC_DEBUG,
-                                                  "SYNC_STRUCT: Copied "
-                                                  "element[%d] = ");
-                                    }
-                                }
+                                // The per-element variables s.m[k] exist for the first extent only and are
+                                // not cells of an N-D member: they must not be copied over
+                                // multidim_array_values[k] (that undid every write to a cell whose
+                                // row-major index is below the first extent).
                             }
                         }
                     } else if (found_in_struct_members &&
